@@ -44,13 +44,13 @@ def with_big(form):
 
 SHAPES = [
     ("nil", "()"), ("zero", "0"), ("minus1", "-1"), ("max", "9223372036854775807"), ("min", "-9223372036854775808"), ("char", "%a"),
-    ("sym", "'sym"), ("string", "\"str\""), ("list", "'(1 2 3)"), ("oddplist", "'(a 1 b)"), ("plist", "'(a 1 b 2)"), ("badplist", "'(1 a 2)"),
+    ("sym", "'sym"), ("keya", "'a"), ("keyb", "'b"), ("string", "\"str\""), ("list", "'(1 2 3)"), ("oddplist", "'(a 1 b)"), ("plist", "'(a 1 b 2)"), ("badplist", "'(1 a 2)"),
     ("pair", "'(1 . 2)"), ("improper", "'(a b . c)"), ("lambda", "(lambda (x) x)"), ("restfn", "(lambda (& r) r)"), ("macro", "(macro (x) x)"),
     ("native", "car"), ("special", "eval"), ("trap", "(make-trap 1 2)"), ("gensym", "(gensym)"), ("stdout", "'*stdout*"), ("stdin", "'*stdin*"),
     ("ltype", "'lambda-type"), ("module", "'default"), ("amp", "'(x & r)"), ("form", "'(car (quote (1)))"), ("badfn", "(make-function '(x) 'y 5 'default 'lambda-type)"),
     ("deep", "deep"), ("long", "long"), ("deepcdr", "deepcdr"), ("nest2", "nest2"),
 ]
-SMALL = [s for s in SHAPES if s[0] in ("nil", "min", "sym", "oddplist", "improper", "lambda", "badfn", "deep")]
+SMALL = [s for s in SHAPES if s[0] in ("nil", "min", "keyb", "oddplist", "improper", "lambda", "badfn", "deep")]
 WRITES_FILES = {"output-file"}     # a string as its first argument names a file to create: not enumerated
 
 def native_table():
@@ -93,7 +93,7 @@ def enumerate_calls(rng, tier):
 
 # calls made through the data-handling entry points named by the property
 STRUCTURE_FORMS = [
-    "(print deep)", "(print long)", "(print deepcdr)", "(= deep deep)", "(= long long)", "(= deepcdr deepcdr)", "(= nest2 nest2)", "(eval deep)", "(macroexpand deep)",
+    "(. '(a 1 b) 'b)", "(. '(a 1 b) 'a)", "(get-property-safe 'b '(a 1 b))", "(print deep)", "(print long)", "(print deepcdr)", "(= deep deep)", "(= long long)", "(= deepcdr deepcdr)", "(= nest2 nest2)", "(eval deep)", "(macroexpand deep)",
     "(eval (list 'quote deep))", "(macroexpand long)", "(eval long)", "(type-of deepcdr)", "(length long)", "(reverse long)", "(append long long)", "(signal deep)",
     "(eval (trap (signal deep) *trapped-signal*))", "(list deep deep)", "(get-metadata deep)", "(print (list deepcdr))", "(print nest2)",
     "(read (print deep) 'stdin 1 1)", "(read (print long) 'stdin 1 1)", "(send deep)", "(send long)", "(. long 'a)", "(. deepcdr 'a)",
@@ -189,6 +189,17 @@ def run(tier, seed):
                     continue
                 rep.violation(f"{profile} build: picilisp --expression {f!r} ended with {st}: {tail[-160:]}",
                               {"profile": profile, "how": f"{exe} --expression '{f}'", "observed": st + " " + tail})
+    # the model's totality theorems are about the transcription: tie it to the binary on the enumerated calls
+    # (small shapes only; the primitives that touch the file system are not modelled)
+    small_names = {s for s, _ in SHAPES} - set(BIG) - {"badfn"}
+    modelled = [(n, c) for n, c in calls if n not in ("input-file", "output-file") and all(s in small_names for s, _ in c)]
+    step = max(1, len(modelled) // (400 if tier == "quick" else 6000))
+    model_progs = [call_text(n, c) for n, c in modelled[seed % step::step]] + [f for f in STRUCTURE_FORMS if not any(b in f for b in BIG) and "file" not in f]
+    ps = evalprop.ProgramSet("calls", model_progs, env="p", opts="cont=1", shard_size=40, timeout=20.0)
+    evalprop.run_sets(rep, [ps])
+    if ps.bad and not rep.violations:
+        evalprop.report_disagreements(rep, [ps], "primitive calls on every argument shape")
+    rep.coverage["model_vs_binary_calls"] = len(model_progs)
     for cls, lst in hits.items():
         e = entry(cls)
         if e:
